@@ -6,6 +6,8 @@ Property theorems only; helper lemmas live in XrayProofs.
 import XrayProofs.LazyInt
 import XrayProofs.IntArith
 import XrayProofs.LazyIntOps
+import XrayProofs.IntBinom
+import XrayProofs.IntDigits
 namespace XrayModel.C14
 open XrayModel LB
 
@@ -220,6 +222,65 @@ theorem order_builtins (a b : LB) (ha : a.wf) (hb : b.wf) :
   · rw [Int.compare_eq_gt.mpr h]
     have : LB.beq a b = false := by rw [← Bool.not_eq_true, he]; omega
     simp [this, e5, e6]; omega
+/-! ### binomial coefficient and digits (loops of `int.rs`) -/
+
+theorem cmp_gt_iff (a b : LB) (ha : a.wf) (hb : b.wf) : (LB.cmp b a == .gt) = true ↔ a.den < b.den := by
+  rw [cmp_spec b a hb ha, beq_iff_eq, Int.compare_eq_gt]
+
+/-- `binom(n, k)` for `0 ≤ k ≤ n` is the binomial coefficient, exact and canonical at every magnitude -/
+theorem binom_spec (a b : LB) (ha : a.wf) (hb : b.wf) (n k : Nat) (han : a.den = n) (hbk : b.den = k)
+    (hkn : k ≤ n) : ∃ r, IntB.binom a b = .int r ∧ r.wf ∧ r.den = (n.choose k : Nat) := by
+  unfold IntB.binom IntB.rangeTo
+  have h1 : (LB.cmp b a == .gt) = false := by
+    rw [← Bool.not_eq_true, cmp_gt_iff a b ha hb]; omega
+  have h2 : LB.isNegative b = false := by
+    rw [← Bool.not_eq_true, isNegative_iff]; omega
+  rw [h1, h2]
+  simp only [Bool.false_eq_true, if_false]
+  have hk : b.den.toNat = k := by omega
+  rw [hk]
+  obtain ⟨num, den, hf, hnw, hdw, hn, hd⟩ := Binom.fold_inv a ha n han k hkn
+  rw [hf]; simp only []
+  have hd0 : den.den ≠ 0 := by
+    rw [hd]; exact_mod_cast (Nat.factorial_pos k).ne'
+  obtain ⟨r, hr, hrw, hrd⟩ := div_correct num den hnw hdw hd0
+  refine ⟨r, by rw [hr]; rfl, hrw, ?_⟩
+  rw [hrd, hn, hd, Binom.tdiv_desc_fact]
+
+theorem binom_k_above_n (a b : LB) (ha : a.wf) (hb : b.wf) (h : a.den < b.den) :
+    IntB.binom a b = .err "argument 2 must be less than argument 1" := by
+  unfold IntB.binom; rw [if_pos ((cmp_gt_iff a b ha hb).mpr h)]
+
+theorem binom_k_negative (a b : LB) (ha : a.wf) (hb : b.wf) (h1 : b.den ≤ a.den) (h : b.den < 0) :
+    IntB.binom a b = .err "argument 2 must be non-negative" := by
+  unfold IntB.binom
+  have h1 : (LB.cmp b a == .gt) = false := by
+    rw [← Bool.not_eq_true, cmp_gt_iff a b ha hb]; omega
+  rw [h1, if_pos ((isNegative_iff b).mpr h)]; simp
+
+/-- `digits(n, b)` for `b ≥ 2`: the loop terminates (the model's fuel suffices), the digits are the little-endian
+expansion of `n` in base `b` (Horner form) and carry the sign of `n` (so for `n ≥ 0` each lies in `[0, b)`) -/
+theorem digits_spec (n b : LB) (hn : n.wf) (hb : b.wf) (hb2 : 2 ≤ b.den) :
+    ∃ ds, IntB.digits n b = .ints ds ∧ (∀ d ∈ ds, d.wf) ∧
+      (ds.map LB.den).foldr (fun d acc => d + b.den * acc) 0 = n.den ∧
+      (∀ d ∈ ds, (0 ≤ n.den → 0 ≤ d.den ∧ d.den < b.den) ∧ (n.den ≤ 0 → -b.den < d.den ∧ d.den ≤ 0)) := by
+  unfold IntB.digits
+  have h1 : (LB.cmp b (short 2) == .lt) = false := by
+    rw [← Bool.not_eq_true, cmp_spec b (short 2) hb (by decide), beq_iff_eq, Int.compare_eq_lt]
+    simp only [den_short]; omega
+  rw [h1]; simp only [Bool.false_eq_true, if_false]
+  obtain ⟨ds, hl, hw, hh, hr⟩ := Digits.loop_spec b hb hb2 (n.den.natAbs + 1) n [] hn (by omega)
+  rw [hl]
+  exact ⟨ds, by simp, hw, hh, hr⟩
+
+theorem digits_small_base (n b : LB) (hb : b.wf) (hb2 : b.den < 2) :
+    IntB.digits n b = .err "base must be at least 2" := by
+  unfold IntB.digits
+  have h1 : (LB.cmp b (short 2) == .lt) = true := by
+    rw [cmp_spec b (short 2) hb (by decide), beq_iff_eq, Int.compare_eq_lt]
+    simp only [den_short]; omega
+  rw [h1]; rfl
+
 /-- non-vacuity: operands straddling 2^63 -/
 example : Correct (LB.mul (long 9223372036854775808) (short (-1))) (-9223372036854775808) :=
   ⟨_, rfl, by decide, rfl⟩
